@@ -207,7 +207,10 @@ def group_cells(tier):
     cells = []
 
     @st.composite
-    def st_q(draw):
+    def st_q(draw, exact=False):
+        if exact:  # forced stratum: half turns whose quaternion has a scalar part of exactly 0.0
+            return {"rot": draw(gens.rotation(strata=("pi",))), "w": draw(gens.vector(3, scales=(-3, -1, 0, 0, 1, 2))),
+                    "snap": True, "axis_aligned": draw(st.booleans()), "ax": draw(st.integers(0, 2))}
         return {"rot": draw(gens.rotation(strata=("zero", "tiny", "switch", "mid", "nearpi", "pi", "beyond"))),
                 "w": draw(gens.vector(3, scales=(-3, -1, 0, 0, 1, 2))),
                 # half turns with a scalar part of exactly 0.0, coordinate axes with exactly zero components
@@ -250,7 +253,7 @@ def group_cells(tier):
             L.close(dR, want, "SO3Quat %s jacobian: R' vs %s" % (side, "[w]x R" if side == "left" else "R [w]x"), scale=sc,
                     q=q.tolist(), w=w.tolist())
 
-        cells.append(Cell("SO3Quat/kin_%s" % side, st_q(), check_q, nt, classify, quick=300, thorough=5000,
+        cells.append(Cell("SO3Quat/kin_%s" % side, {"mixed": st_q(), "half-turn-exact": st_q(exact=True)}, check_q, nt, classify, quick=300, thorough=5000,
                           build=lambda key=key: gq.fn(key).build()))
 
     def check_m(case):
